@@ -1,6 +1,7 @@
 import Gossamer.Base.Proto
 import Gossamer.Lib.Blake2b
 import Gossamer.Model.C03
+import Gossamer.Lib.C03State
 open Gossamer Gossamer.C03
 
 /- line:   `op;op;…`  (ops: put h k v | del h k | clr h p | clrl h p n | snap h | ver h 0|1 | hash h |
@@ -8,8 +9,13 @@ open Gossamer Gossamer.C03
    output: per op `<result> h0:<entries> h1:<entries> …` (live handles), `;`-joined: the run of the
    heap model.  When the forest-of-independent-tries specification (snap = deep copy) gives something
    else: TAB `spec=<its run>`, and TAB `kf=parent-write-after-snapshot` if some op of the line writes
-   through a handle that has a live snapshot (the region excluded by `C03_isolated`). -/
+   through a handle that has a live snapshot (the region excluded by `C03_isolated`).
+   A line with an op of the second run's vocabulary (`state fresh store evict tstate gs ents`; the
+   generator starts every such line with `state`) belongs to the second run (dot/state `InmemoryStorageState`):
+   see `Lib/C03State.lean`; there the known-finding region is a write through a trie state that was
+   given to `StoreTrie` (its trie object is the parent of the snapshots `TrieState` hands out). -/
 def step (line : String) : String :=
+  if C03S.isStateLine line then C03S.step Blake2b.hash256 line else
   let ops := parseLine line
   let H := Blake2b.hash256
   let guardOK := !violatesGuard H St.init ops
